@@ -465,49 +465,38 @@ Proof. induction l as [|a r IH]; simpl; auto. rewrite IH. reflexivity. Qed.
 Definition cell_err (g x : Q) : Q := x / g - inject_Z (qfl g x).
 
 Lemma row_errs_Q g row :
-  cells row <> [] ->
-  row_errs NumQ g row (map (qfl g) (cells row))
-  = map (cell_err g) (cells row) ++ [last row 0 / g - inject_Z 0].
+  row_errs NumQ g row (map (qfl g) (cells row)) = map (cell_err g) (cells row).
 Proof.
-  intros Hne. unfold row_errs.
-  assert (Hrow : row = cells row ++ [last row 0]).
-  { unfold cells. apply app_removelast_last. intros E. apply Hne. rewrite E. reflexivity. }
-  rewrite Hrow at 1. rewrite combine_app_eq by (rewrite map_length; reflexivity).
-  rewrite map_app. simpl. rewrite combine_map_self, map_map. reflexivity.
+  unfold row_errs. rewrite combine_map_self, map_map. reflexivity.
 Qed.
 
 Lemma row_max_err_Q g row e :
-  0 < g -> cells row <> [] -> last row 0 <= 0 ->
+  0 < g -> cells row <> [] ->
   row_max_err NumQ g row (map (qfl g) (cells row)) = Ok e ->
   0 <= e /\ e < 1 /\ forall x, In x (cells row) -> cell_err g x <= e.
 Proof.
-  intros Hg Hne Hw. unfold row_max_err. rewrite row_errs_Q by auto.
+  intros Hg Hne. unfold row_max_err. rewrite row_errs_Q.
   destruct (cells row) as [|x0 cs] eqn:Ecs; [congruence|]. simpl.
   intros H; inversion H; subst; clear H.
-  set (l := map (cell_err g) cs ++ [last row 0 / g - inject_Z 0]).
+  set (l := map (cell_err g) cs).
   destruct (max_by_pc_Q (cell_err g x0) l) as [H1 H2].
   assert (Hall : forall y, In y (cell_err g x0 :: l) -> y < 1).
   { intros y [<-|Hy].
     - apply qfl_bounds; auto.
-    - unfold l in Hy. apply in_app_or in Hy. destruct Hy as [Hy|[<-|[]]].
-      + apply in_map_iff in Hy. destruct Hy as [x [<- _]]. apply qfl_bounds; auto.
-      + change (inject_Z 0) with 0.
-        assert (last row 0 / g <= 0).
-        { unfold Qdiv. assert (0 < / g) by (apply Qinv_lt_0_compat; auto). nra. }
-        lra. }
+    - unfold l in Hy. apply in_map_iff in Hy. destruct Hy as [x [<- _]]. apply qfl_bounds; auto. }
   split; [|split].
   - assert (cell_err g x0 <= max_by_pc NumQ (cell_err g x0) l) by (apply H2; left; auto).
     destruct (qfl_bounds g x0 Hg). unfold cell_err in *. lra.
   - apply Hall. exact H1.
   - intros x [<-|Hx].
     + apply H2. left; auto.
-    + apply H2. right. unfold l. apply in_or_app. left. apply in_map. auto.
+    + apply H2. right. unfold l. apply in_map. auto.
 Qed.
 
 (* sum of the per-row maxima *)
 Lemma error_max_from_Q g acc (rs : list (list Q)) em :
   0 < g ->
-  Forall (fun r => cells r <> [] /\ last r 0 <= 0) rs ->
+  Forall (fun r => cells r <> []) rs ->
   error_max_from NumQ g acc (map (fun r => (r, raw_int_row NumQ g r)) rs) = Ok em ->
   acc <= em /\ em <= acc + inject_Z (Z.of_nat (length rs)) /\
   exists es, Forall2 (fun r e => forall x, In x (cells r) -> cell_err g x <= e) rs es /\ em == acc + Qsum es.
@@ -516,7 +505,7 @@ Proof.
   - inversion H; subst. simpl. change (inject_Z 0) with 0. split; [lra|]. split; [lra|].
     exists []. split; [constructor|simpl; lra].
   - apply rbind_ok in H. destruct H as [e [He H]].
-    inversion F as [|? ? [Hne Hw] Frest]; subst.
+    inversion F as [|? ? Hne Frest]; subst.
     rewrite raw_int_row_Q in He. apply row_max_err_Q in He; auto. destruct He as [E0 [E1 E2]].
     apply IH in H; auto. simpl in H. destruct H as [H1 [H2 [es [H3 H4]]]].
     simpl length. rewrite Nat2Z.inj_succ. unfold Z.succ. rewrite inject_Z_plus. change (inject_Z 1) with 1.
@@ -711,7 +700,7 @@ Qed.
 Definition matrix_ok (K : nat) (rows : list (list Q)) (bg : list Q) : Prop :=
   (2 <= K)%nat /\ Forall (fun r => length r = K) rows /\ length bg = K /\
   (forall b, In b bg -> 0 <= b) /\ bg_unit (K - 1) bg /\
-  Forall (fun r => last r 0 <= 0) rows.
+  last bg 0 == 0.
 
 Lemma permuted_rows_spec (rows : list (list Q)) perm prow :
   permuted_rows rows perm = Ok prow ->
@@ -790,8 +779,6 @@ Proof.
   assert (Hcs : cs = css) by (unfold cs; symmetry; exact Hcells).
   (* error_max bounds *)
   rewrite combine_map_self, tl_map in Hem.
-  assert (Hrowsok : Forall (fun r => cells r <> [] /\ last r 0 <= 0) prow).
-  { rewrite Forall_forall in *. intros r Hr. split; [apply Hne; auto|apply Hwild; apply Hpin; auto]. }
   apply error_max_from_Q in Hem; auto; [|apply Forall_tl; auto].
   destruct Hem as [Em0 [Em1 _]].
   assert (EmM : g_emax G <= M).
